@@ -57,7 +57,10 @@ class Program:
             if "int" in c:
                 self.constants.append(("int", bigint_from_json(c["int"])))
             else:
-                self.constants.append(("bin", bytes(c["bin"])))
+                b = c["bin"]
+                # the serialised form of a binary constant is the repository's business (an array
+                # of byte numbers today); a textual form is read as its UTF-8 bytes
+                self.constants.append(("bin", b.encode("utf-8") if isinstance(b, str) else bytes(b)))
         self.functions = [Fn(f) for f in bytecode["functions"]]
         self.builtins = [b["name"] for b in bytecode["builtins"]]
         self.builtin_info = bytecode["builtins"]
